@@ -18,6 +18,7 @@ pub fn def() -> PropDef {
         nontrivial,
         functional: true,
         rule: "grammar-generated programs of depth <= 7 with names from a 10-name pool in every syntactic position (operands, receivers, arguments, indices, map keys and values, list elements, struct fields, select chains, macro ranges and bodies, has() arguments), executed against contexts defining a random subset of the variable and function names; observed: the reported variable and function sets and the execution outcome; predicate on the implementation: an undeclared name is reported, a context defining everything reported never yields undeclared, reported variables occur as identifiers in the source, no '@' name is reported; non-trivial = the program mentions at least two names; distinct = distinct (context, source)",
+        post: super::no_post,
         exhaustive_note: "random sample",
     }
 }
